@@ -3,7 +3,7 @@
 #[verifier::reject_recursive_types(K)]
 #[verifier::accept_recursive_types(V)]
 pub struct FnvHashMap<K, V> { _p: core::marker::PhantomData<(K, V)> }
-impl<K, V> View for FnvHashMap<K, V> { type V = Map<K, V>; uninterp spec fn view(&self) -> Map<K, V>; }
+impl<K, V> View for FnvHashMap<K, V> { type V = vstd::map::Map<K, V>; uninterp spec fn view(&self) -> vstd::map::Map<K, V>; }
 // two maps with the same contents are the same map (no observable iteration order in the functions under contract)
 pub broadcast axiom fn axiom_map_ext<K, V>(a: FnvHashMap<K, V>, b: FnvHashMap<K, V>)
     ensures #[trigger] a@ == #[trigger] b@ ==> a == b;
